@@ -1,11 +1,14 @@
 """C01 - interpreted programs behave exactly like the same program compiled by gc (DESIGN 7/C01).
 
-Seven sub-parts, one check (the report format of Stop / Fatal / PanicError chains, PanicFlow, lives under C12):
+Eight sub-parts, one check (the report format of Stop / Fatal / PanicError chains, PanicFlow, lives under C12):
   intalu     IntALU.tla     integer arithmetic at every width / shifts / conversions / division faults
   initorder  InitOrder.tla  package-level initialisation order and initialisation cycles
   conv       StrConv.tla    int -> string, []byte / []rune <-> string
   minigo     MiniGo.tla     reference interpreter of a structured mini language, seeded programs
   deferflow  MiniGoFlow.tla every defer / panic / recover program (a tree of functions) up to a number of nodes,
+                            enumerated by TLC and run by the same reference interpreter
+  nest       MiniGoNest.tla every unlabelled break / continue at every position of the bodies of up to 2 (thorough 3)
+                            nested statements out of for / range over a string / range over a slice / switch / select,
                             enumerated by TLC and run by the same reference interpreter
   misc       GoMisc.tla     variadic calls, select with one ready case, uses of one constant at several types
   pkginit    PkgInit.tla    programs of several packages: every import graph over p, q, r, main, the order in which the
@@ -19,10 +22,10 @@ from rig import Infra
 META = {
     "title": "Interpreted programs behave like gc",
     "engine": "GoSem",
-    "technique": "TLA+ reference of Go semantics (IntALU over BigInt, InitOrder, StrConv over Utf8, the MiniGo interpreter incl. call frames with defer / panic / recover, GoMisc: variadic calls, select, constant uses, PkgInit: initialisation of a program of several packages) + implementation-shaped models of the VM's per-kind truncation switches, of the checker's declaration sort (sortDeclarations / funcVarsResolved / checkDepsPath), of the emitter's list of init functions (emitPackage / emitImport) and of the import stack of ParseProgram, model-checked exhaustively by TLC; TLC exports the case spaces - for MiniGo it runs every program to completion to obtain its output, and it enumerates every defer/panic/recover program (tree of functions) up to a number of nodes; a Go driver writes each case as Go source (in up to four source forms; a program of several packages as go.mod + one directory per package), builds and runs it with the real scriggo.Build/Run; a TLC Trace spec judges every observation against the reference; gc is consulted only for failing cases (oracle guard)",
+    "technique": "TLA+ reference of Go semantics (IntALU over BigInt, InitOrder, StrConv over Utf8, the MiniGo interpreter incl. call frames with defer / panic / recover, GoMisc: variadic calls, select, constant uses, PkgInit: initialisation of a program of several packages) + implementation-shaped models of the VM's per-kind truncation switches, of the checker's declaration sort (sortDeclarations / funcVarsResolved / checkDepsPath), of the emitter's list of init functions (emitPackage / emitImport) and of the import stack of ParseProgram, model-checked exhaustively by TLC; TLC exports the case spaces - for MiniGo it runs every program to completion to obtain its output, it enumerates every defer/panic/recover program (tree of functions) up to a number of nodes and every unlabelled break / continue at every position of nested for / range / switch / select statements up to a nesting depth; a Go driver writes each case as Go source (in up to four source forms; a program of several packages as go.mod + one directory per package), builds and runs it with the real scriggo.Build/Run; a TLC Trace spec judges every observation against the reference; gc is consulted only for failing cases (oracle guard)",
     "level": "model_checking",
-    "level_text": "TLC model-checks Impl(op,kind,x,y) against Ref for all 11 integer kinds x 17 binary + 2 unary operators + conversions x boundary operands x shift counts of every count kind (register and constant-operand forms); the declaration-sort algorithm of the checker, under both textual orders of the dependencies, against the Go spec's initialisation algorithm for all dependency graphs over 3 variables + 1 function with at most 3 edges and all 'through functions' graphs (no direct variable -> variable edge; chains, recursion and mutual recursion of functions) over 3 variables + 2 functions with at most 5 edges (thorough: all 65 536 graphs over 3 + 1, all graphs over 4 + 2 with at most 3 edges, through-functions graphs with at most 6 edges); the same cases are run through the real Build/Run in up to four source forms each and every printed value / panic message / build outcome is judged by the TLA+ reference. MiniGo programs (labelled break / continue across for, range and switch, switch/fallthrough, goto, closures, arrays/structs/slices/maps, strings, run-time faults, operand evaluation order of println) are interpreted by TLC and their output compared with the real run; every defer/panic/recover program of at most 5 (thorough 6) nodes - nested calls, deferred calls, panics raised while panicking, recover at every position - is enumerated and interpreted by TLC and run as top-level functions and as function literals; every variadic call shape (0..2 fixed, 0..3 variadic arguments or a nil / empty / non-empty slice spread), every select over 2..3 buffered channels with exactly one (or no) ready case, and every sequence of up to 3 (thorough 4) uses of one bool / int constant at different types is run and judged. Programs of several packages: every acyclic import graph over the packages p, q, r and main (370 graphs, every order of the import declarations: chains, fans, diamonds, a package imported directly and through another) with 2 (thorough 24) drawn decorations each - 0..2 variables per package whose initialisers print and read a variable of an imported package or of their own package, 0..2 init functions per package that print and write a variable of an imported package, main prints every final value - in two source forms; TLC model-checks the emitter's construction of the list of init functions against the Go specification's order (imported packages first, every package once, variables before init functions, main last; independent packages in the order of their import paths, the Go 1.21 rule, which the construction does not follow: model counterexamples, and the only output the judge accepts is the one of that order); every import graph with a cycle (1290; the quick tier runs a third of them, chosen by the seed) must be rejected by Build.",
-    "level_note": "Trusted: TLC, lib/BigInt.tla and lib/Utf8.tla, the concretiser (record -> Go source by string templates) and the print capture of the driver. gc is not on the passing path. The final outcome judged for a panic is the message of the newest panic (PanicError.String); the chain format and Stop/Fatal are C12's. Not covered: floating point and complex numbers, print formatting of floats, the // run corpus, goroutines and unbuffered channels (C14), methods on Scriggo-defined types and generics (outside Scriggo's subset), runtime.Goexit, panic values other than int and run-time errors, named results modified by deferred closures (where the Go specification's wording on recover() leaves room - a deferred call run by an ordinary return while an outer panic is in progress - the reference follows gc: nil; the reference was audited against gc on 572 programs of the defer/panic/recover space), register-allocation pressure beyond the generated programs; for programs of several packages: packages of more than one file, more than 4 packages, blank / dot / renamed imports, native packages.",
+    "level_text": "TLC model-checks Impl(op,kind,x,y) against Ref for all 11 integer kinds x 17 binary + 2 unary operators + conversions x boundary operands x shift counts of every count kind (register and constant-operand forms); the declaration-sort algorithm of the checker, under both textual orders of the dependencies, against the Go spec's initialisation algorithm for all dependency graphs over 3 variables + 1 function with at most 3 edges and all 'through functions' graphs (no direct variable -> variable edge; chains, recursion and mutual recursion of functions) over 3 variables + 2 functions with at most 5 edges (thorough: all 65 536 graphs over 3 + 1, all graphs over 4 + 2 with at most 3 edges, through-functions graphs with at most 6 edges); the same cases are run through the real Build/Run in up to four source forms each and every printed value / panic message / build outcome is judged by the TLA+ reference. MiniGo programs (labelled break / continue across for, range and switch, switch/fallthrough, goto, closures, arrays/structs/slices/maps, strings, run-time faults, operand evaluation order of println) are interpreted by TLC and their output compared with the real run; every defer/panic/recover program of at most 5 (thorough 6) nodes - nested calls, deferred calls, panics raised while panicking, recover at every position - is enumerated and interpreted by TLC and run as top-level functions and as function literals; every nest of 1..2 (thorough 1..3) statements out of three-clause for / range over a string / range over a slice / switch / select { default } (nests of the greatest depth: one of the two range kinds per level, alternating with the seed) with one unlabelled break or continue (continue where a loop is around it), bare or inside an if on the loop variables, at every position of every body (before the first print, after it, after the nested statement, at the end), every body printing the loop variables before and after the nested statement and the program printing a line after the nest, is enumerated and interpreted by TLC (the Go specification's 'innermost for, switch, or select statement' / 'innermost enclosing for loop') and run; every variadic call shape (0..2 fixed, 0..3 variadic arguments or a nil / empty / non-empty slice spread), every select over 2..3 buffered channels with exactly one (or no) ready case, and every sequence of up to 3 (thorough 4) uses of one bool / int constant at different types is run and judged. Programs of several packages: every acyclic import graph over the packages p, q, r and main (370 graphs, every order of the import declarations: chains, fans, diamonds, a package imported directly and through another) with 2 (thorough 24) drawn decorations each - 0..2 variables per package whose initialisers print and read a variable of an imported package or of their own package, 0..2 init functions per package that print and write a variable of an imported package, main prints every final value - in two source forms; TLC model-checks the emitter's construction of the list of init functions against the Go specification's order (imported packages first, every package once, variables before init functions, main last; independent packages in the order of their import paths, the Go 1.21 rule, which the construction does not follow: model counterexamples, and the only output the judge accepts is the one of that order); every import graph with a cycle (1290; the quick tier runs a third of them, chosen by the seed) must be rejected by Build.",
+    "level_note": "Trusted: TLC, lib/BigInt.tla and lib/Utf8.tla, the concretiser (record -> Go source by string templates) and the print capture of the driver. gc is not on the passing path. The final outcome judged for a panic is the message of the newest panic (PanicError.String); the chain format and Stop/Fatal are C12's. Not covered: floating point and complex numbers, print formatting of floats, the // run corpus, goroutines and unbuffered channels (C14), methods on Scriggo-defined types and generics (outside Scriggo's subset), runtime.Goexit, panic values other than int and run-time errors, select statements with communication clauses inside loops (the select of the nests has only a default clause), type switches and range over maps / channels / integers / functions as the statements of a nest, goto out of a nest, named results modified by deferred closures (where the Go specification's wording on recover() leaves room - a deferred call run by an ordinary return while an outer panic is in progress - the reference follows gc: nil; the reference was audited against gc on 572 programs of the defer/panic/recover space), register-allocation pressure beyond the generated programs; for programs of several packages: packages of more than one file, more than 4 packages, blank / dot / renamed imports, native packages.",
     "design_ref": "7/C01",
 }
 FAMS = ["gosem"]
@@ -33,8 +36,9 @@ _I83 = " (upstream issue open2b/scriggo#83: labelled break and continue are not 
 PROPOSED_KNOWN = []   # integrated into known-findings.json
 
 BASE = {"intalu": 0, "initorder": 1000000, "conv": 2000000, "minigo": 3000000, "deferflow": 4000000, "misc": 5000000,
-        "pkginit": 6000000}
+        "pkginit": 6000000, "nest": 7000000}
 NO_ALT = {"out": [], "outcome": "none", "msg": []}
+NO_NEST = {"jump": "", "at": "", "encl": ""}
 
 
 # ------------------------------------------------------------------------------------------ parts
@@ -533,7 +537,7 @@ MG_ALL_KINDS = {"e:" + k for k in ("c", "str", "v", "bin", "cmp", "and", "or", "
                                    "nilptr", "nilmap", "nilslice", "mkmap", "mkslice", "mkfuncs", "lit", "slicelit", "append", "clo", "call",
                                    "box", "assert", "fn", "recover", "isnil")} | \
                {"s:" + k for k in ("nop", "label", "decl", "set", "print", "if", "for", "ranges", "switch", "break", "continue", "goto", "del",
-                                   "expr", "ret", "defer", "panic")}
+                                   "expr", "ret", "defer", "panic", "rangesl", "select")}
 
 
 def mg_kinds(v, acc):
@@ -628,6 +632,41 @@ def part_deferflow(ctx):
     return cases, info
 
 
+def part_nest(ctx):
+    """All programs of MiniGoNest.tla: an unlabelled break / continue at every position of the bodies of nested for / range /
+    switch / select statements; TLC enumerates them, runs the reference interpreter on each and prints one case per program."""
+    # (depth, full): statements nested; up to depth `full` a statement is of any of the 5 kinds, deeper programs have one kind of
+    # range statement per level (over a slice / over a string, alternating with the level and the seed)
+    depth, full = ctx.pick((2, 1), (3, 2))
+    wd = ctx.stage("mc_nest", FAMS)
+    (wd / "MiniGoNestCfg.tla").write_text("---- MODULE MiniGoNestCfg ----\nNestMaxDepth == %d\nNestFullDepth == %d\nNestSeed == %d\n====\n" % (depth, full, ctx.seed))
+    invs = ["InDomain", "EndsWith99"]
+    rig.write_cfg(wd / "MC_MiniGoNest.cfg", invariants=invs)
+    r = ctx.tlc(wd, "MC_MiniGoNest", workers=ctx.pick(2, max(2, rig.NCPU // 2)), timeout=1500, must_pass=True)
+    cases = []
+    for l in r.out.splitlines():
+        if l.startswith('<<"CASE", "') and l.endswith('">>'):
+            cases.append(json.loads(json.loads(l[len('<<"CASE", '):-2])))
+    cases.sort(key=lambda c: c["id"])
+    if not cases or len({c["id"] for c in cases}) != len(cases) or r.distinct != 2 * len(cases):
+        raise Infra(f"MC_MiniGoNest exported {len(cases)} cases, {r.distinct} states (two per case expected, no duplicate ids): {wd}/MC_MiniGoNest.out")
+    by = {}
+    for c in cases:
+        sp = c.pop("spec")
+        c["shape"] = "nest:" + ">".join(sp["ks"]) + ":%s@%d.%d" % (sp["jump"], sp["lvl"], sp["pos"]) + (":if" if sp["cond"] else "")
+        c["tmo"] = 5000          # these programs run in microseconds; one that does not end is stopped after 5 s
+        k = "%s -> %s in %s" % (c["nest"]["jump"], c["nest"]["at"], c["nest"]["encl"])
+        by[k] = by.get(k, 0) + 1
+    used = set()
+    mg_kinds([c["prog"] for c in cases], used)
+    info = {"states": r.distinct, "transitions": r.generated, "mc_wall_s": round(r.wall, 1), "mc_invariants": invs,
+            "max_nested_statements": depth, "all_five_kinds_up_to_depth": full, "cases": len(cases),
+            "programs_by_jump_target_and_enclosing_statement": by,
+            "programs_whose_jump_is_conditional": sum(1 for c in cases if c["shape"].endswith(":if")),
+            "interpreter_cases_exercised": sorted(used)}
+    return cases, info
+
+
 def part_misc(ctx):
     wd = ctx.stage("mc_misc", FAMS)
     invs = ["VariadicSane", "SelectSane", "ConstUseSane"]
@@ -686,7 +725,7 @@ def part_pkginit(ctx):
 
 
 PARTS = [("intalu", part_intalu), ("initorder", part_initorder), ("conv", part_conv), ("minigo", part_minigo),
-         ("deferflow", part_deferflow), ("misc", part_misc), ("pkginit", part_pkginit)]
+         ("deferflow", part_deferflow), ("nest", part_nest), ("misc", part_misc), ("pkginit", part_pkginit)]
 MISC_FAMS = ("variadic", "select", "constuse")
 
 
@@ -699,7 +738,7 @@ def case_from_obs(o):
     if o["fam"] == "conv":
         return {k: o[k] for k in ("id", "fam", "op", "k", "v", "a")}
     if o["fam"] == "minigo":
-        return {k: o[k] for k in ("id", "fam", "shape", "forms", "prog", "exp", "alt") if k in o}
+        return {k: o[k] for k in ("id", "fam", "shape", "forms", "prog", "exp", "alt", "nest", "tmo") if k in o}
     if o["fam"] in MISC_FAMS:
         return {k: v for k, v in o.items() if k not in ("outcome", "out", "msg", "src", "raw")}
     if o["fam"] == "pkginit":
@@ -824,6 +863,7 @@ def judge(ctx, step, recs, shards=1, per=2000):
         o = {k: v for k, v in o.items() if k not in ("prog", "forms", "src", "raw", "g121")}
         if o["fam"] == "minigo":
             o.setdefault("alt", NO_ALT)
+            o.setdefault("nest", NO_NEST)
         return o
 
     def one(i):
@@ -922,9 +962,10 @@ def run(ctx, replay_cases=None):
                 infos[name] = info
     else:
         cases = replay_cases
-    if "minigo" in infos and "deferflow" in infos:   # syntactic categories of the interpreter that neither program space exercises
+    if "minigo" in infos and "deferflow" in infos and "nest" in infos:   # syntactic categories of the interpreter that no program space exercises
         infos["minigo"]["interpreter_cases_never_exercised"] = sorted(set(infos["minigo"]["interpreter_cases_never_exercised"])
-                                                                      - set(infos["deferflow"].pop("interpreter_cases_exercised")))
+                                                                      - set(infos["deferflow"].pop("interpreter_cases_exercised"))
+                                                                      - set(infos["nest"].pop("interpreter_cases_exercised")))
     rig.write_ndjson(ctx.work / "cases.ndjson", cases)
     obs_p = ctx.work / "obs.ndjson"
     ctx.drive("c01", ctx.work / "cases.ndjson", obs_p, timeout=1500)
@@ -943,7 +984,7 @@ def run(ctx, replay_cases=None):
         parts=infos,
         evaluations=len(allobs), traces_validated_against_impl=len(allobs),
         distinct_nontrivial=len({json.dumps(case_from_obs(o), sort_keys=True) + str(o.get("form", "")) for o in allobs if nontrivial(o)}),
-        rule="minigo: seeded programs of 11 shapes (labelled loops, labelled break / continue across for / range / switch, switch/fallthrough, goto, closures, array/struct/pointer values, slice aliasing, maps, strings, run-time faults, println operand order), expected output computed by TLC; deferflow: every tree of functions over the nodes call / defer / recover / panic with at most max_nodes nodes, all of whose nodes run, interpreted by TLC, in the source forms named / literal; non-trivial = more than one printed line or a panic. conv: all conversions of the 12-value rune set / strings of <= MaxPieces well- and ill-formed UTF-8 pieces; non-trivial = a non-ASCII value is involved. initorder: every dependency graph of the bounded spaces, one program per textual order of the dependencies; non-trivial = at least one edge. intalu: TLC-exported space (all kinds x operators x boundary operands x shift counts), each case in the source forms var / literal operand / op-assignment / if-condition; non-trivial = result wrapped, shifted out, divided, converted or panicked. variadic / select / constuse: the spaces of MC_GoMisc.tla, one program per case; non-trivial = nothing or a slice passed for the variadic parameter / every select / the constant used at two types or more. pkginit: every import graph over p, q, r, main (with and without cycles, every order of the import declarations) x drawn decorations, in the source forms separate / grouped import declarations; non-trivial = two packages or more have variables or init functions. One record per (case, form).",
+        rule="minigo: seeded programs of 11 shapes (labelled loops, labelled break / continue across for / range / switch, switch/fallthrough, goto, closures, array/struct/pointer values, slice aliasing, maps, strings, run-time faults, println operand order), expected output computed by TLC; deferflow: every tree of functions over the nodes call / defer / recover / panic with at most max_nodes nodes, all of whose nodes run, interpreted by TLC, in the source forms named / literal; nest: every program of MiniGoNest.tla (kinds of the nested statements x break / continue x level x position x bare / inside an if) up to max_nested_statements, interpreted by TLC; non-trivial = more than one printed line or a panic. conv: all conversions of the 12-value rune set / strings of <= MaxPieces well- and ill-formed UTF-8 pieces; non-trivial = a non-ASCII value is involved. initorder: every dependency graph of the bounded spaces, one program per textual order of the dependencies; non-trivial = at least one edge. intalu: TLC-exported space (all kinds x operators x boundary operands x shift counts), each case in the source forms var / literal operand / op-assignment / if-condition; non-trivial = result wrapped, shifted out, divided, converted or panicked. variadic / select / constuse: the spaces of MC_GoMisc.tla, one program per case; non-trivial = nothing or a slice passed for the variadic parameter / every select / the constant used at two types or more. pkginit: every import graph over p, q, r, main (with and without cycles, every order of the import declarations) x drawn decorations, in the source forms separate / grouped import declarations; non-trivial = two packages or more have variables or init functions. One record per (case, form).",
         exhaustive=True,
         samples=[sample(o) for fam in sorted(by_fam) for o in rig.pick_samples(by_fam[fam], 2, ctx.seed)],
     )
